@@ -18,6 +18,7 @@ from scipy import stats as sps
 from simkit import build, ctx as rctx, lifecycle as lc, oracles, seams, targets
 from simkit.driver import digest
 from simkit.oracles import LibRaised, lib_call
+from simkit.rng import sync_generators
 
 PROPERTY = "C01"
 LEVEL = "exploration"
@@ -40,8 +41,11 @@ def _scenario(draw, tier):
         cfg["knobs"]["max_attempts"] = draw(st.sampled_from([1, 1, 3, 100]))
     ops = []
     for _ in range(draw(st.integers(1, 4))):
-        k = draw(st.sampled_from(["steps", "steps", "steps", "exchange", "estimate_mass"]))
-        if k == "estimate_mass" and cfg["kind"] == "hmc":
+        k = draw(st.sampled_from(["steps", "steps", "steps", "steps", "exchange", "estimate_mass", "restart"]))
+        if k == "restart":
+            # save / load; the file is loaded twice and the second restored sampler keeps stepping next to this one
+            ops.append(["restart"])
+        elif k == "estimate_mass" and cfg["kind"] == "hmc":
             ops.append(["estimate_mass", draw(st.booleans())])
         elif k == "steps" or cfg["kind"] == "ensemble" or k == "estimate_mass":
             ops.append(["steps", draw(st.sampled_from([1, 3, 8, 20]))])
@@ -599,6 +603,7 @@ def execute(sc):
             S, _ = h.rows()
             w = S[-1].copy()
         ended = False
+        twins = []
         for op in sc["ops"]:
             if V or ended:
                 break
@@ -622,6 +627,19 @@ def execute(sc):
                 h.cfg = dict(h.cfg, knobs=dict(h.cfg["knobs"], inverse_mass=im_new.tolist() if im_new.ndim else float(im_new)))
                 stats["probe_estimate_mass"] += 1
                 momentum_law(V, stats, h)
+                continue
+            if op[0] == "restart":
+                try:
+                    old_, tw_ = lc.op_restart(h, "r%d" % len(twins), twin=True)
+                except LibRaised:
+                    stats["restart_failed_history_ended"] += 1  # C09's business
+                    break
+                sync_generators(h.chain, old_)
+                twins.append(tw_)
+                stats["fault_crash_restart"] += 1
+                if rec is not None and hasattr(h.chain, "run_leapfrog"):
+                    rec = LeapfrogRecorder(h.chain)
+                    h.chain.run_leapfrog = rec
                 continue
             if op[0] == "exchange":
                 g = np.random.Generator(np.random.PCG64([op[1], 17]))
@@ -654,6 +672,7 @@ def execute(sc):
                     break
                 ev = _events(c, h.label, seq0)
                 stats["steps_refined"] += 1
+                twins[:] = [t_ for t_ in twins if lc.twin_step(h, t_)]
                 if kind == "ensemble":
                     S, _ = h.rows()
                     X_after = S[-h.n_walkers:]
